@@ -278,8 +278,8 @@ SPECS['C10'] = dict(
             'and has the documented effect (inductive: histories of any length)', timeout=(120, 600)),
          twin('sem-step', 'harness.c10', 'h_sem_step_twin', 'the capped release (value == bound) is reached')]
         + parts(ch('pool-slots', 'harness.c10', 'h_pool', 'conservation / blocking at the bound / all slots free at quiescence, histories of '
-                   'submissions, takes, results, exits, ticks, a map job, a failing send', timeout=(300, 1500)), 8)
-        + parts(twin('pool-slots', 'harness.c10', 'h_pool_twin', 'a run in which apply_async blocks exists'), 8)
+                   'submissions, takes, results, exits, ticks, a map job, a failing send', timeout=(300, 1500)), 4)
+        + parts(twin('pool-slots', 'harness.c10', 'h_pool_twin', 'a run in which apply_async blocks exists'), 4)
         + [smt('race-release-release', 'harness.c10', 'ob_release_release', 'E2: release || release, every interleaving of attribute reads/writes and lock operations: value <= bound',
                replay_function='replay_race'),
            smt('race-release-grow', 'harness.c10', 'ob_release_grow', 'E2: release || grow', replay_function='replay_race'),
@@ -375,7 +375,7 @@ SPECS['C14'] = dict(
         + tiered(lambda: ch('free-step', 'harness.c14', 'h_free', 'one free from any valid state: invariant kept; merged with both free neighbours; with the '
                             'lock held it is only deferred and the next operation absorbs it', timeout=(300, 1500)), 5, 10)
         + tiered(lambda: twin('free-step', 'harness.c14', 'h_free_twin', 'a run with the lock already held exists'), 5, 10)
-        + [ch('histories', 'harness.c14', 'h_history', 'malloc,malloc,free,malloc,free from the empty heap with symbolic sizes: invariant, no overlap, '
+        + [ch('histories', 'harness.c14', 'h_history', 'malloc,malloc,free,malloc,free from the empty heap, sizes and freed blocks chosen by the solver from a table: invariant, no overlap, '
               'sizes honoured (reachability evidence for the invariant)', timeout=(300, 1500), nontrivial_witness=True),
            ch('buffer-wrapper', 'harness.c14', 'h_wrapper', 'two live BufferWrappers: size <= block, view inside the block, disjoint storage, writes do not leak',
               timeout=(300, 1500), nontrivial_witness=True)]
@@ -502,7 +502,7 @@ SPECS['C02'] = dict(
                 'handler runs are solver variables; the oracle is the sequential map. z3 proves the chunk-tiling arithmetic for c<=64, n<=64.',
     functions=['billiard.pool.Pool._map_async', 'Pool._get_tasks', 'mapstar', 'starmapstar', 'MapResult.__init__/_set/_ack', 'IMapIterator._set/_set_length/next',
                'IMapUnorderedIterator._set', 'TaskHandler.body (set_length)', 'ApplyResult.get', 'billiard.einfo.ExceptionInfo/ExceptionWithTraceback/rebuild_exc'],
-    bounds={'quick': 'n <= 3 items, chunk size 0(None)..2, pool of 1..2, at most one raising position, 2 symbolic scheduling events then run to completion',
+    bounds={'quick': 'n <= 3 items, chunk size 0(None)..2, pool of 1..2, at most one raising position, 3 symbolic scheduling events then run to completion',
             'thorough': 'n <= 5, chunk <= 6, any subset of raising positions, 5 events'},
     outside=['"arguments and results unchanged up to pickling" for arbitrary objects (pickle is C; payloads are tagged tuples)', 'imap with chunksize > 1 '
              '(flattening generator)', 'pool sizes above 2'],
